@@ -173,8 +173,11 @@ def refs(name):
 
 def conditions(tier, seed, active):
     quick = tier == "quick"
-    out = tp.gen_conditions(__name__, "single", tier, seed, groups=("T1", "T2", "T3", "T4"), rate={"T1": 0.3, "T2": 0.6, "T3": 0.2},
-                            pairs_quick=8, rest=False, tags_from_template=False)
+    applicators = ("items_schema", "items_tuple", "items_tuple_addl_schema", "contains", "properties", "properties_required_d3", "patternProperties",
+                   "additionalProperties_schema", "propertyNames", "dependencies_schema", "dependencies_bool", "allOf", "anyOf", "oneOf", "oneOf3", "not",
+                   "if_then_else", "extends_d3", "extends_single_d3", "disallow_d3", "type_schema_d3", "anyOf_mixed", "empty_dependencies")
+    out = tp.gen_conditions(__name__, "single", tier, seed, groups=("T1", "T2", "T3", "T4"), rate={"T1": 0.2, "T2": 0.6, "T3": 0.2},
+                            pairs_quick=8, rest=False, tags_from_template=False, always=applicators)
     for c in out:
         c["tags"] = []
         c["witness"] = []
